@@ -846,6 +846,33 @@ fn run_staged<S: SignedHeaderRequirements>(
             evs.push(stage_ok("StageSts", json!({"sts": jbytes(&sts)})));
         }
     }
+    // The same authenticator validated LATER (one hour on, same tolerance) through the unstable route: every call
+    // re-checks freshness against the clock it is given, so this must be refused as expired and the provider must
+    // not be consulted - whatever an earlier prevalidate() on this object concluded.
+    let events: Events = Arc::new(Mutex::new(Vec::new()));
+    let mut late_script = script.clone();
+    late_script.ready_in = 0;
+    late_script.pend_in = 0;
+    let mut provider = Provider {
+        script: late_script,
+        ready_left: 0,
+        events: events.clone(),
+    };
+    let late = guarded(|| block_on_n(auth.validate_signature(&region, &service, now + Duration::hours(1), Duration::minutes(15), &mut provider), 1000));
+    let calls = events.lock().unwrap().len();
+    let mut ev = match late {
+        Err(p) => stage_err("StageLate", Err(&p), json!({})),
+        Ok(None) => {
+            let mut m = Map::new();
+            m.insert("ev".into(), json!("StageLate"));
+            blank_result(&mut m, "stuck", "future never completed");
+            Value::Object(m)
+        }
+        Ok(Some(Err(e))) => stage_err("StageLate", Ok(&e), json!({})),
+        Ok(Some(Ok(_))) => stage_ok("StageLate", json!({})),
+    };
+    ev["provider_events"] = json!(calls);
+    evs.push(ev);
     evs
 }
 
